@@ -76,32 +76,169 @@ structure Wire where
   `Overlay.Process` never reads it (the identity is taken from the envelope) -/
   claimed : Option Nat := none
 
-/-- what happens to one arriving envelope: `TransmitMsg` refuses a missing sender token, the
-instance aggregates and then verifies. Result: new queues and what the handler/channel receives
-(`none`: nothing). -/
-def receive (i : Inst) (q : Queues) (w : Wire) : Queues × Option (List (Node × Msg)) :=
+/-- `dispatchHandler`/`dispatchChannel`, one-by-one branch (flag not set): the messages are verified and
+handed over one after the other; the first refusal ends the dispatch — what was handed over before it stays
+handed over. (`aggregate` releases single messages for such types, see `c02_no_partial_delivery`.) -/
+def deliverPlain (nodes : List Node) : List Msg → List (Node × Msg)
+  | [] => []
+  | m :: b =>
+    match verify nodes m with
+    | none => []
+    | some n => (n, m) :: deliverPlain nodes b
+
+/-- `dispatchMsgToProtocol` after `aggregate` released `b` for type `ty`: the branch is chosen by the type's
+flag (`hasFlag(mt, AggregateMessages)`), for handlers and channels alike; the result lists the handler calls /
+channel items: one holding the whole batch, or one per message. -/
+def dispatch (i : Inst) (ty : Nat) (b : List Msg) : List (List (Node × Msg)) :=
+  if i.agg ty then (deliverBatch i.nodes b).toList
+  else (deliverPlain i.nodes b).map fun x => [x]
+
+/-- what happens to one arriving envelope: a missing sender token is refused (`dispatchMsgToProtocol`,
+treenode.go:562-564), the instance aggregates and then verifies. Result: new queues and what the
+handler/channel receives. -/
+def receive (i : Inst) (q : Queues) (w : Wire) : Queues × List (List (Node × Msg)) :=
   match w.sender with
-  | none => (q, none)
+  | none => (q, [])
   | some s =>
     let r := aggregate i q { ty := w.ty, sender := s, peer := w.peer, val := w.val }
     (r.1, match r.2 with
-          | none => none
-          | some b => deliverBatch i.nodes b)
+          | none => []
+          | some b => dispatch i w.ty b)
 
 /-- feeding a list of envelopes: everything the handlers/channels received, in order -/
 def run (i : Inst) (q : Queues) : List Wire → List (List (Node × Msg))
   | [] => []
   | w :: ws =>
     let r := receive i q w
-    r.2.toList ++ run i r.1 ws
+    r.2 ++ run i r.1 ws
+
+/-- the queues after a list of envelopes -/
+def finalQ (i : Inst) (q : Queues) : List Wire → Queues
+  | [] => q
+  | w :: ws => finalQ i (receive i q w).1 ws
+
+/-! ## The tree store: which tree `createValueAndVerify` searches
+
+`TreeNodeInstance.Tree()` (treenode.go:181-190) is `overlay.treeStorage.Get(token.TreeID)`: the instance's
+own tree, looked up by the tree id of its token; `Tree.Search` then walks that tree only.  The store of a server
+holds every tree the server knows — among them trees with the same root server, and trees containing nodes with
+the id the message claims (a node's id is derived from its server's key alone, so a server has the same node
+id in every tree). -/
+
+/-- `treeStorage.trees`: tree id ↦ the nodes of the tree (in `Tree.Search` order) -/
+abbrev Store := List (Nat × List Node)
+
+/-- `treeStorage.Get` -/
+def Store.get (s : Store) (tid : Nat) : Option (List Node) := (s.find? fun e => e.1 = tid).map Prod.snd
+
+/-- the instance with token tree id `tid` on a server whose store is `s` (`Tree()` of an instance whose tree is
+not stored panics — the overlay never hands a message to such an instance, property C11; modelled as the empty
+tree, which refuses every sender) -/
+def instOf (s : Store) (tid : Nat) (parent : Option Nat) (nChildren : Nat) (agg : Nat → Bool) : Inst :=
+  { nodes := (s.get tid).getD [], parent := parent, nChildren := nChildren, agg := agg }
+
+/-! ## The transport side: where the peer identity comes from
+
+The sender controls every byte of the frame — the `From` token and the frame's own `ServerIdentity` field
+included.  The receiver's router knows, for each connection, the identity fixed when the connection was set up
+(`Router.handleConn(remote, c)`: for an accepted connection what `receiveServerIdentity` returned — with TLS
+checked against the certificate, property C08 —, for a dialled one the identity that was dialled). -/
+
+/-- a serialised protocol message as it travels: everything in it is the sender's choice -/
+structure Frame where
+  ty      : Nat
+  sender  : Option Nat
+  claimed : Option Nat
+  val     : Nat
+  deriving DecidableEq, Repr
+
+/-- `network.Envelope`: what the router hands to the overlay -/
+structure Envelope where
+  peer  : Option Nat
+  frame : Frame
+  deriving DecidableEq, Repr
+
+/-- `Router.handleConn` (router.go:460-512): `Receive` yields an envelope without identity, the loop stamps
+the connection's: `packet.ServerIdentity = remote` -/
+def handleConn (remote : Nat) (f : Frame) : Envelope := { peer := some remote, frame := f }
+
+/-- `Router.Send` to the server's own identity (router.go:315-327): no connection, the envelope is built and
+dispatched on the spot with the destination — the server itself — as its identity -/
+def sendToSelf (self : Nat) (f : Frame) : Envelope := { peer := some self, frame := f }
+
+/-- `Overlay.Process` (overlay.go:106-114): `From` comes from the frame, `ServerIdentity` from the envelope;
+the frame's own identity field is dropped -/
+def process (e : Envelope) : Wire :=
+  { ty := e.frame.ty, sender := e.frame.sender, peer := e.peer, val := e.frame.val, claimed := e.frame.claimed }
+
+/-- what reaches a server: a frame on one of its connections, or a frame the server sends to itself -/
+inductive Arrival where
+  | conn (c : Nat) (f : Frame)
+  | self (f : Frame)
+  deriving DecidableEq, Repr
+
+/-- the identity the transport vouches for -/
+def Arrival.origin (self : Nat) (ident : Nat → Nat) : Arrival → Nat
+  | .conn c _ => ident c
+  | .self _ => self
+
+def Arrival.frame : Arrival → Frame
+  | .conn _ f => f
+  | .self f => f
+
+/-- router, then overlay -/
+def arrive (self : Nat) (ident : Nat → Nat) : Arrival → Wire
+  | .conn c f => process (handleConn (ident c) f)
+  | .self f => process (sendToSelf self f)
+
+/-- everything the handlers/channels of the instance receive when these frames arrive, in order, on these
+connections (`ident c`: the identity connection `c` was set up with) -/
+def netRun (i : Inst) (self : Nat) (ident : Nat → Nat) (q : Queues) (evs : List Arrival) :
+    List (List (Node × Msg)) :=
+  run i q (evs.map (arrive self ident))
+
+/-! ## The instance as the overlay drives it: unknown tree, flush, re-registration -/
+
+/-- an operation on the receiving server as far as this instance is concerned -/
+inductive Op where
+  /-- an envelope for the instance arrives -/
+  | msg (w : Wire)
+  /-- the server learns the tree (`RegisterTree` → `checkPendingMessages`): parked envelopes re-enter in order -/
+  | treeArrives
+  /-- an equal copy of the tree is stored again -/
+  | rereg
+
+/-- `parked = some l`: the server does not know the tree, arriving envelopes are parked (property C01) -/
+structure St where
+  q      : Queues := fun _ => []
+  parked : Option (List Wire) := none
+
+def opStep (i : Inst) (s : St) : Op → St × List (List (Node × Msg))
+  | .msg w =>
+    match s.parked with
+    | some ws => ({ s with parked := some (ws ++ [w]) }, [])
+    | none => let r := receive i s.q w; ({ s with q := r.1 }, r.2)
+  | .treeArrives =>
+    match s.parked with
+    | none => (s, [])
+    | some ws => ({ q := finalQ i s.q ws, parked := none }, run i s.q ws)
+  | .rereg => (s, [])
+
+def opRun (i : Inst) (s : St) : List Op → List (List (Node × Msg))
+  | [] => []
+  | o :: os => let r := opStep i s o; r.2 ++ opRun i r.1 os
 
 namespace Drv
 
 structure State where
   inst : Inst := { nodes := [], parent := none, nChildren := 0, agg := fun _ => false }
-  q    : Queues := fun _ => []
-  /-- `some l`: the receiver does not know the tree yet, arriving envelopes are parked (C01) -/
-  parked : Option (List Wire) := none
+  st   : St := {}
+  /-- the other trees the server stores; the instance's own tree has id 0 -/
+  others : Store := []
+
+/-- the instance of the `cfg` line as the server with these other stored trees sees it -/
+def withStore (others : Store) (ns : List Node) (p : Option Nat) (n : Nat) (l : List Nat) : Inst :=
+  instOf ((0, ns) :: others) 0 p n (fun t => l.contains t)
 
 def init : State := {}
 
@@ -127,61 +264,81 @@ def peer? (s : String) : Option (Option Nat) :=
     | _, _ => none
   | _ => optNat s
 
+def showDel (ds : List (List (Node × Msg))) : String :=
+  let items := ds.flatten
+  if items.isEmpty then "-" else
+    ",".intercalate (items.map fun (n, m) => s!"{m.ty}/{n.id}@{n.server}/{m.val}")
+
 /-- one `msg` op; `claimed` is what the sender wrote into the wire message's own identity field -/
 def msgStep (s : State) (t snd peer v : String) (claimed : Option Nat) : State × String :=
   match t.toNat?, optNat snd, peer? peer, v.toNat? with
   | some t, some snd, some peer, some v =>
     let w : Wire := { ty := t, sender := snd, peer := peer, val := v, claimed := claimed }
-    match s.parked with
-    | some ws => ({ s with parked := some (ws ++ [w]) }, "-")
-    | none =>
-    let r := receive s.inst s.q w
-    ({ s with q := r.1 },
-      match r.2 with
-      | none => "-"
-      | some b => if b.isEmpty then "-" else
-          ",".intercalate (b.map fun (n, m) => s!"{m.ty}/{n.id}@{n.server}/{m.val}"))
+    let r := opStep s.inst s.st (.msg w)
+    ({ s with st := r.1 }, showDel r.2)
   | _, _, _, _ => (s, "bad-op")
+
+def claimed? (w : String) : Option (Option Nat) :=
+  if w = "w-" then some none
+  else if w.startsWith "w" then ((w.drop 1).toNat?).map some else none
 
 /-- `cfg <nodes id:server,…> <parent id|-> <nChildren> <aggregated types>` and
 `msg <type> <claimed sender id|-> <peer server|-> <value>`; the reply to `msg` lists what was
-delivered as `type/senderId@server/value,…` or `-`. -/
+delivered as `type/senderId@server/value,…` or `-`.
+`net <conn> <type> <claimed sender id|-> <value> <w<k>|w->`: the frame arrives on the real connection set up
+with server `conn` (`self`: the receiving server sends it to itself); its own identity field says server k. -/
 def step (s : State) (toks : List String) : State × String :=
   match toks with
   | ["cfg", nodes, par, n, aggs] =>
     match parseNodes nodes, optNat par, n.toNat?, Util.natList aggs with
     | some ns, some p, some n, some l =>
-      ({ inst := { nodes := ns, parent := p, nChildren := n, agg := fun t => l.contains t }, q := fun _ => [] }, "ok")
+      ({ s with inst := withStore s.others ns p n l, st := {} }, "ok")
     | _, _, _, _ => (s, "bad-op")
+  -- `store <tree id ≥ 1> <nodes>`: the server also stores this tree (before the `cfg` line)
+  | ["store", tid, nodes] =>
+    match tid.toNat?, parseNodes nodes with
+    | some tid, some ns => if tid = 0 then (s, "bad-op") else ({ s with others := s.others ++ [(tid, ns)] }, "ok")
+    | _, _ => (s, "bad-op")
   | ["cfg", nodes, par, n, aggs, "unknown-tree"] =>
     match parseNodes nodes, optNat par, n.toNat?, Util.natList aggs with
     | some ns, some p, some n, some l =>
-      ({ inst := { nodes := ns, parent := p, nChildren := n, agg := fun t => l.contains t }, q := fun _ => [],
-         parked := some [] }, "ok")
+      ({ s with inst := withStore s.others ns p n l, st := { parked := some [] } }, "ok")
     | _, _, _, _ => (s, "bad-op")
   -- the advisory `RosterIndex` fields of the nodes point elsewhere: they bind nothing
   | ["cfg", nodes, par, n, aggs, "scrambled-index"] =>
     match parseNodes nodes, optNat par, n.toNat?, Util.natList aggs with
     | some ns, some p, some n, some l =>
-      ({ inst := { nodes := ns, parent := p, nChildren := n, agg := fun t => l.contains t }, q := fun _ => [] }, "ok")
+      ({ s with inst := withStore s.others ns p n l, st := {} }, "ok")
     | _, _, _, _ => (s, "bad-op")
   | ["treearrives"] =>
-    match s.parked with
+    match s.st.parked with
     | none => (s, "ok")
-    | some ws =>
-      -- the flush re-enters every parked envelope in arrival order
-      let r := ws.foldl (fun (acc : Queues × List (Node × Msg)) w =>
-                  let x := receive s.inst acc.1 w
-                  (x.1, acc.2 ++ (x.2.getD []))) (s.q, [])
-      ({ s with q := r.1, parked := none },
-        if r.2.isEmpty then "-" else
-          ",".intercalate (r.2.map fun (n, m) => s!"{m.ty}/{n.id}@{n.server}/{m.val}"))
+    | some _ =>
+      let r := opStep s.inst s.st .treeArrives
+      ({ s with st := r.1 }, showDel r.2)
   | ["msg", t, snd, peer, v] => msgStep s t snd peer v none
   -- `w<k>`: the sender put server k's identity into the wire message's own `ServerIdentity` field
   | ["msg", t, snd, peer, v, w] =>
-    match (if w.startsWith "w" then (w.drop 1).toNat? else none) with
-    | some k => msgStep s t snd peer v (some k)
-    | none => (s, "bad-op")
+    match claimed? w with
+    | some (some k) => msgStep s t snd peer v (some k)
+    | _ => (s, "bad-op")
+  | ["net", conn, t, snd, v, w] =>
+    match t.toNat?, optNat snd, v.toNat?, claimed? w with
+    | some t, some snd, some v, some cl =>
+      let f : Frame := { ty := t, sender := snd, claimed := cl, val := v }
+      -- connection k is the one set up with server k; the receiving server's own number does not matter
+      -- for a frame it sends to itself: the harness names the sender node's server in `self <k>`
+      let a? : Option (Arrival × Nat) :=
+        match conn.splitOn ":" with
+        | ["self", k] => (k.toNat?).map fun k => (Arrival.self f, k)
+        | [k] => (k.toNat?).map fun k => (Arrival.conn k f, 0)
+        | _ => none
+      match a? with
+      | none => (s, "bad-op")
+      | some (a, self) =>
+        let r := opStep s.inst s.st (.msg (arrive self id a))
+        ({ s with st := r.1 }, showDel r.2)
+    | _, _, _, _ => (s, "bad-op")
   | ["rereg"] => (s, "ok")   -- an equal copy of the tree is registered again: nothing changes
   | _ => (s, "bad-op")
 
